@@ -3,6 +3,7 @@
 
 use serde_json::{json, Value};
 
+pub mod random;
 pub mod sim;
 
 /// Deterministic PRNG (splitmix64) so that runs are reproducible from VERIF_SEED.
